@@ -1433,7 +1433,8 @@ class Obj(Container):
         if self.name == tensor_names.fock:
             space = self.space
             assert len(space) == 2
-            if space[0] == space[1]:  # diagonal block
+            if space[0] == space[1] or "g" in space:
+                # diagonal block or a general index that covers both spaces
                 bl_diag = self.sympy
             else:  # off diagonal block
                 bl_diag = 0
